@@ -31,20 +31,29 @@ fn main() {
                 "C05" => gen_instr::gen_filtered(
                     &[gen_instr::Class::Lea, gen_instr::Class::Data, gen_instr::Class::Stack, gen_instr::Class::CallRet, gen_instr::Class::Branch],
                     tier, seed ^ 0x505, 6, 40, true, &mut out),
-                "C06" => gen_instr::gen(&[gen_instr::Class::Data], tier, seed ^ 0x606, 6, 40, &mut out),
+                "C06" => {
+                    gen_instr::gen(&[gen_instr::Class::Data], tier, seed ^ 0x606, 6, 40, &mut out);
+                    // no spurious failures in histories either: returns after returns, calls in calls (model only)
+                    gen_prog::gen_stack_programs(tier, seed ^ 0x606, &mut out);
+                }
                 "C07" => gen_c07::gen(tier, seed, &mut out),
                 "C08" => {
                     gen_mem::gen_c08(tier, seed, &mut out);
                     // guest loads and stores of every width, with the bytes around the operand observed
-                    gen_instr::gen_filtered(&[gen_instr::Class::Data, gen_instr::Class::Stack], tier, seed ^ 0x808, 2, 12, true, &mut out);
+                    gen_instr::gen_filtered(&[gen_instr::Class::Data, gen_instr::Class::Stack, gen_instr::Class::CallRet, gen_instr::Class::Branch], tier, seed ^ 0x808, 2, 12, true, &mut out);
                 }
                 "C09" => {
                     gen_mem::gen_c09(tier, seed, &mut out);
                     gen_elf::gen_perm_cases(tier, seed, &mut out);
                     // guest accesses to read-only / unmapped / straddling operands
-                    gen_instr::gen_filtered(&[gen_instr::Class::Data, gen_instr::Class::Stack], tier, seed ^ 0x909, 2, 12, true, &mut out);
+                    // (also the transfers through memory: a denied read of the target must leave the stack alone)
+                    gen_instr::gen_filtered(&[gen_instr::Class::Data, gen_instr::Class::Stack, gen_instr::Class::CallRet, gen_instr::Class::Branch], tier, seed ^ 0x909, 2, 12, true, &mut out);
                 }
-                "C10" => gen_mem::gen_c10(tier, seed, &mut out),
+                "C10" => {
+                    gen_mem::gen_c10(tier, seed, &mut out);
+                    // the heap is an area like the others: brk histories (growing, shrinking, failing) with the area list observed
+                    gen_prog::gen_c13(tier, seed ^ 0x1013, &mut out);
+                }
                 "C11" => gen_prog::gen_c11(tier, seed, &mut out),
                 "C12" => gen_prog::gen_c12(tier, seed, &mut out),
                 "C13" => gen_prog::gen_c13(tier, seed, &mut out),
